@@ -553,6 +553,172 @@ theorem makeRef_go_quiet (orig : Nat) (name : String) (fuel e : Nat) (st : St) (
           exact ⟨fn, hl⟩
         | _ => simp [isFuncObj] at h
 
+/-- what a `Get` on frame `e` that does not move `e`'s counter can have returned:
+nothing; the frame's own function (`self` / its own name); a value bound in the frame's own store; or
+a reference to a trusted binding (`Trusted`: a function value, or an all-caps name of a depth-0 frame) —
+judged in the state the lookup started from, or in that state with the frame's own stale reference
+removed (the referenced variable had been deleted and the name was looked up again) -/
+inductive PureRead (st : St) (e : Nat) (name : String) : Option Obj → Prop
+  | notFound : PureRead st e name none
+  | self (fr : Frame) (fn : FuncVal) : st.frames[e]? = some fr → fr.function = some fn →
+      PureRead st e name (some (.func fn))
+  | own (fr : Frame) (v : Obj) : st.frames[e]? = some fr → lookupStore fr.store name = some v →
+      (∀ re rn, v ≠ .ref re rn) → PureRead st e name (some v)
+  | outer (re : Nat) (rn nm : String) : Trusted st nm re rn → PureRead st e name (some (.ref re rn))
+  | outerFresh (fr : Frame) (re : Nat) (rn nm : String) : st.frames[e]? = some fr →
+      Trusted { st with frames := st.frames.setIfInBounds e { fr with store := delStore fr.store name } } nm re rn →
+      PureRead st e name (some (.ref re rn))
+
+theorem makeRef_quiet' (orig : Nat) (name : String) (st sF : St) (r : Option Obj)
+    (hrun : run (makeRef orig name) st = (.ok r, sF)) (hq : missOf sF orig = missOf st orig) :
+    r = none ∨ ∃ re rn, r = some (.ref re rn) ∧ Trusted st name re rn := by
+  have h1 : outcome (makeRef.go orig name st.frames.size orig) st = .ok r := by
+    have : outcome (makeRef orig name) st = (run (makeRef orig name) st).1 := rfl
+    rw [hrun] at this; exact this
+  have h2 : Quiet orig (makeRef.go orig name st.frames.size orig) st := by
+    have : stateAfter (makeRef orig name) st = (run (makeRef orig name) st).2 := rfl
+    rw [hrun] at this
+    show missOf (stateAfter (makeRef orig name) st) orig = missOf st orig
+    rw [this]; exact hq
+  exact makeRef_go_quiet orig name st.frames.size orig st r h1 h2
+
+theorem envGet_quiet (e : Nat) (name : String) (st : St) (r : Option Obj)
+    (hok : outcome (envGet e name) st = .ok r) (hq : Quiet e (envGet e name) st) : PureRead st e name r := by
+  have hO : ∀ {α} (x : M α) (s : St), outcome x s = (run x s).1 := fun _ _ => rfl
+  have hS : ∀ {α} (x : M α) (s : St), stateAfter x s = (run x s).2 := fun _ _ => rfl
+  unfold Quiet at hq
+  rw [hS] at hq
+  rw [hO] at hok
+  cases hrun : run (envGet e name) st with
+  | mk a sF =>
+  rw [hrun] at hok hq
+  dsimp only at hok hq
+  subst hok
+  unfold envGet at hrun
+  dsimp only at hrun
+  split at hrun
+  · rw [run_bind] at hrun; cases hrun
+  · rw [run_bind, run_getFrame] at hrun
+    cases hfe : st.frames[e]? with
+    | none => rw [hfe] at hrun; cases hrun
+    | some f =>
+    rw [hfe] at hrun
+    dsimp only at hrun
+    have main : run (match lookupStore f.store name with
+          | some (Obj.ref re rn) => do
+            let alive ← refAlive re rn
+            if (!alive) = true then do
+                modifyFrame e fun f => { f with store := delStore f.store name }
+                match f.outer with
+                  | none => pure none
+                  | some _ => makeRef e name
+              else do
+                let tgt ← refValue re rn
+                let fr ← getFrame re
+                if (!(isConstant rn && fr.depth == 0) && !isFuncObj tgt) = true then do
+                    modifyFrame e fun f => { f with getMiss := f.getMiss + 1 }
+                    pure (some (Obj.ref re rn))
+                  else pure (some (Obj.ref re rn))
+          | some obj => pure (some obj)
+          | none =>
+            match f.outer with
+            | none => pure none
+            | some _ => makeRef e name : M (Option Obj)) st = (.ok r, sF) → PureRead st e name r := by
+      intro hm
+      split at hm
+      · next re rn hl =>
+        rw [run_bind] at hm
+        have hra := readOnly_refAlive re rn st
+        cases hA : run (refAlive re rn) st with
+        | mk aA sA =>
+        rw [hA] at hm hra
+        dsimp only at hra
+        subst hra
+        cases aA with
+        | error err => cases hm
+        | ok alive =>
+        dsimp only at hm
+        split at hm
+        · rw [run_bind, run_modifyFrame, hfe] at hm
+          dsimp only at hm
+          split at hm
+          · cases hm; exact .notFound
+          · have hmiss : missOf sF e = missOf
+                { sA with frames := sA.frames.setIfInBounds e { f with store := delStore f.store name } } e := by
+              rw [hq, missOf_setIfInBounds sA e f _ hfe]
+              simp only [if_true]
+              unfold missOf; rw [hfe]
+            rcases makeRef_quiet' e name _ sF r hm hmiss with h | ⟨re', rn', h, ht⟩
+            · subst h; exact .notFound
+            · subst h; exact .outerFresh f re' rn' name hfe ht
+        · rw [run_bind] at hm
+          have hrv := readOnly_refValue re rn sA
+          cases hV : run (refValue re rn) sA with
+          | mk aV sV =>
+          rw [hV] at hm hrv
+          dsimp only at hrv
+          subst hrv
+          cases aV with
+          | error err => cases hm
+          | ok tgt =>
+          dsimp only at hm
+          rw [run_bind, run_getFrame] at hm
+          cases hfr : sV.frames[re]? with
+          | none => rw [hfr] at hm; cases hm
+          | some fre =>
+          rw [hfr] at hm
+          dsimp only at hm
+          split at hm
+          · exfalso
+            rw [run_bind, run_modifyFrame, hfe] at hm
+            dsimp only at hm
+            cases hm
+            rw [missOf_setIfInBounds sV e f _ hfe] at hq
+            simp only [if_true] at hq
+            unfold missOf at hq
+            rw [hfe] at hq
+            dsimp only at hq
+            omega
+          · next hc =>
+            cases hm
+            refine .outer re rn rn ⟨fre, hfr, ?_⟩
+            have hc' : (isConstant rn && fre.depth == 0) = true ∨ isFuncObj tgt = true := by
+              cases h1 : (isConstant rn && fre.depth == 0) <;> cases h2 : isFuncObj tgt <;> simp [h1, h2] at hc ⊢
+            rcases hc' with h | h
+            · left
+              simp only [Bool.and_eq_true, beq_iff_eq] at h
+              exact h
+            · right
+              unfold refValue at hV
+              rw [run_bind, run_getFrame, hfr] at hV
+              dsimp only at hV
+              split at hV
+              · split at hV
+                · cases hV
+                · cases hV; simp [isFuncObj] at h
+              · cases hV
+                cases tgt <;> first | exact ⟨_, by assumption⟩ | simp [isFuncObj] at h
+              · cases hV; simp [isFuncObj] at h
+      · next obj hnr hl =>
+        cases hm
+        exact .own f obj hfe hl (fun re rn h => hnr re rn h)
+      · next hl =>
+        split at hm
+        · cases hm; exact .notFound
+        · rcases makeRef_quiet' e name st sF r hm hq with h | ⟨re', rn', h, ht⟩
+          · subst h; exact .notFound
+          · subst h; exact .outer re' rn' name ht
+    split at hrun
+    · split at hrun
+      · next fn hfn => cases hrun; exact .self f fn hfe hfn
+      · cases hrun; exact .notFound
+    · split at hrun
+      · next fn hfn =>
+        split at hrun
+        · cases hrun; exact .self f fn hfe hfn
+        · exact main hrun
+      · exact main hrun
+
 /-! ### "during": the steps of a computation -/
 
 /-- `During x st y s`: running `x` from `st` runs `y` from `s` as one of its steps (`x` is a chain of
